@@ -562,8 +562,9 @@ fn compute_fold<'query, AdapterT: Adapter<'query> + 'query>(
         context.folded_contexts.insert_or_error(fold_eid, fold_elements).unwrap();
 
         // Remove no-longer-needed imported tags.
+        // The same tag may be listed more than once if it is used several times inside the fold.
         for imported_tag in &moved_fold.imported_tags {
-            context.imported_tags.remove(imported_tag).unwrap();
+            context.imported_tags.remove(imported_tag);
         }
 
         Some(context)
